@@ -122,6 +122,11 @@ def stage_wsdl(p, full_matrix=True, restr=False, static_only=False):
                                             body_el, hdr_els)
         except driver.GLit.Unbuildable as e:
             p.stats["ops_unbuildable"] = p.stats.get("ops_unbuildable", 0) + 1
+            if "not uniquely located" in str(e):
+                # the struct of a body / header element (or of something inside it) is not in the output at all: the envelope
+                # cannot hold that element (a struct that is there but deviates in shape stays C02's finding)
+                p.finding("envelope-shape", op=op.name.xml, direction="input", what="struct of a bound element is missing from the output",
+                          headers=len(hdr_els), parts_attr=op.in_parts_attr)
             continue
         if req_lit is None:
             p.finding("envelope-shape", op=op.name.xml, direction="input", what=why, headers=len(hdr_els), parts_attr=op.in_parts_attr)
@@ -139,8 +144,11 @@ def stage_wsdl(p, full_matrix=True, restr=False, static_only=False):
                 rhvs = [ev.value(h, "full") for h in rh_els]
                 resp_lit, why = envelope_literal(p, resp_ty, ev.literal(rb_el, rbv), [ev.literal(h, v) for h, v in zip(rh_els, rhvs)],
                                                  rb_el, rh_els)
-            except driver.GLit.Unbuildable:
+            except driver.GLit.Unbuildable as e:
                 p.stats["ops_unbuildable"] = p.stats.get("ops_unbuildable", 0) + 1
+                if "not uniquely located" in str(e):
+                    p.finding("envelope-shape", op=op.name.xml, direction="output", what="struct of a bound element is missing from the output",
+                              headers=len(rh_els), parts_attr=op.out_parts_attr)
                 continue
             if resp_lit is None:
                 p.finding("envelope-shape", op=op.name.xml, direction="output", what=why, headers=len(rh_els), parts_attr=op.out_parts_attr)
